@@ -16,6 +16,7 @@ Definition action_eqb (a b : action) : bool :=
   | AHandler l, AHandler l' => eqb l l'
   | AHandlerTask i, AHandlerTask j => Nat.eqb i j
   | AUpload i l c, AUpload j l' c' => Nat.eqb i j && eqb l l' && eqb c c'
+  | AUploadCall l c, AUploadCall l' c' => eqb l l' && eqb c c'
   | AOutOfModel, AOutOfModel => true
   | _, _ => false
   end.
